@@ -87,7 +87,7 @@ class C05(PoolScenario):
     prop = "C05"
     level = "exploration"
     profiles = ["dyadic", "awkward"]
-    budgets = {"quick": 3000, "thorough": 60000}
+    budgets = {"quick": 10000, "thorough": 200000}
     wall_caps = {"quick": 110, "thorough": 1500}
     ops = {"new": 1, "fill": 10, "fillnumpy": 6, "add": 3, "iadd": 2, "mul": 2, "copy": 1, "zero": 0.5, "ship": 2}
     rule = ("one run = one operation history over a pool of aggregators owned by three tasks (fill, fill.numpy with "
